@@ -173,6 +173,15 @@ EFT = {
 }
 
 
+def _sample(res: Result, case, cl, nt):
+    """At most one trivial and one non-trivial sample per shard, taken at a shard-dependent position."""
+    if res.evaluations >= getattr(res, 'sample_at', 1):
+        if nt and not res.nt_samples:
+            res.sample(dict(case, classes=cl), nt=True)
+        elif not nt and not res.samples:
+            res.sample(dict(case, classes=cl))
+
+
 def observe(fn, args, ctx):
     try:
         return fn(*args, ctx=ctx), None
@@ -306,8 +315,7 @@ def check_eft(res: Result, fm: Fmt, name, ops, sample_every=4999, diag=False):
     nt = any(c in NT_CLASSES for c in cl)
     if nt:
         res.nontrivial()
-    if res.evaluations % sample_every == 1:
-        res.sample(dict(case, classes=cl), nt=nt)
+    _sample(res, case, cl, nt)
     why = None
     got = None
     if exc is not None:
@@ -386,8 +394,7 @@ def check_veltkamp(res: Result, fm: Fmt, x: Op, s: int, diag=False):
         res.cls(c)
     if cl:
         res.nontrivial()
-    if res.evaluations % 997 == 1:
-        res.sample(dict(case, classes=cl), nt=bool(cl))
+    _sample(res, case, cl, bool(cl))
     if why is not None:
         res.fail(f'veltkamp_split/{why}', case, expected='hi+lo = x, hi in p-s digits, lo in s digits', got=got)
     return why
@@ -486,8 +493,7 @@ def check_split(res: Result, fm: Fmt, d, cname, obj, n, fn='split'):
         res.cls(c)
     if cl:
         res.nontrivial()
-    if res.evaluations % 1499 == 1:
-        res.sample(dict(case, classes=cl), nt=bool(cl))
+    _sample(res, case, cl, bool(cl))
     got = None
     if exc is not None:
         got = f'raised {exc}'
@@ -549,8 +555,7 @@ def check_frexp(res: Result, fm: Fmt, d, cname, obj):
         res.cls(c)
     if cl:
         res.nontrivial()
-    if res.evaluations % 1499 == 1:
-        res.sample(dict(case, classes=cl), nt=bool(cl))
+    _sample(res, case, cl, bool(cl))
     got = None
     if exc is not None:
         got = f'raised {exc}'
@@ -631,8 +636,7 @@ def check_ldexp(res: Result, fm: Fmt, d, cname, obj, n):
         res.cls(c)
     if cl:
         res.nontrivial()
-    if res.evaluations % 2999 == 1:
-        res.sample(dict(case, classes=cl), nt=bool(cl))
+    _sample(res, case, cl, bool(cl))
     got = None
     if o is not None:
         if exc is not None:
@@ -802,9 +806,8 @@ def shards(tier, seed):
             out.append(('fma', name, spec, cfg, part, nparts, stride, seed))
     for kind, spec in dec_jobs(tier):
         out.append((kind, spec, tier))
-    # heavy shards first so the pool drains evenly
-    weight = {'fma': 0, 'pair': 1}
-    out.sort(key=lambda s: (weight.get(s[0], 2)))
+    # deterministic shuffle: mixes heavy and light shards (even pool load, varied samples in the evidence)
+    out.sort(key=lambda s: h64('order', s))
     return out
 
 
@@ -1061,6 +1064,7 @@ def run_ideal_fixed(res: Result, spec):
 
 def run_shard(shard):
     res = Result()
+    res.sample_at = 1 + h64('sample', shard) % 2500
     k = shard[0]
     if k == 'pair':
         run_pair(res, *shard[1:])
